@@ -119,7 +119,9 @@ PROPS["C03"] = Prop(jobs=6,
             + _cbfam("c03_late_results", "outcomes recorded while open neither close the breaker nor move its timer", {("count", 2), ("time", 1)}, timeout=900)
             + [_cb("c03_call_wiring", "CircuitBreaker::call: rejected => OpenCircuit at once, inner untouched, nothing recorded; admitted => forwarded once to the ready instance, recorded once, result unchanged",
                    "one call, <= 4 polls, breaker lock granted at the solver's choice, try_acquire answer symbolic (Circuit operations scripted), any inner outcome", profile="service", mem_gb=24, timeout=1800),
-               _cb("c03_call_wiring_with_fallback", "CircuitBreakerWithFallback::call: rejected => the fallback's result, inner untouched", "as above", profile="service", mem_gb=24, timeout=1800)],
+               _cb("c03_call_wiring_with_fallback", "CircuitBreakerWithFallback::call: rejected => the fallback's result, inner untouched", "as above", profile="service", mem_gb=24, timeout=1800)]
+            + _cbfam("c04_step", "every transition into open (failure rate, slow-call rate, failed half-open probe, force_open) stamps the current instant, so the open period always lasts wait_duration_in_open",
+                     {("count", 0), ("time", 0)}, timeout=900),
     functions=["tower_resilience_circuitbreaker::circuit::Circuit::{try_acquire,record_success,record_failure,transition_to,evaluate_window}"],
     bounds=CB_BOUND, outside="window sizes > 3; the service-level wiring (call() consults try_acquire before touching the inner service) is a separate protocol harness",
     assumptions=["Instant::now stubbed by a virtual clock; catch_unwind stubbed (no unwinding in Kani)",
@@ -128,6 +130,8 @@ PROPS["C03"] = Prop(jobs=6,
 PROPS["C04"] = Prop(jobs=6,
     harnesses=_cbfam("c04_step", "one step of every operation from an arbitrary state obeys the documented machine", Q_ALL, timeout=900)
             + _cbfam("c04_metrics", "metrics() agrees with state and window", {("count", 2), ("time", 2)}, timeout=600)
+            + [H("verif_kani::c04b::builder_is_faithful", CB, "the public builder passes every configured value through unchanged (minimum calls above the window included; default minimum = window)",
+                 "all values symbolic", models=("tokio",), playback=False, timeout=900)]
             + [_cb("c04_custom_classifier_recording", "custom classifier: one outcome recorded per admitted call, failure iff the classifier says so", "one admitted call, any inner outcome", profile="service", mem_gb=24, timeout=1800)],
     functions=["Circuit::{record_success,record_failure,try_acquire,force_open,force_closed,reset,transition_to,evaluate_window,metrics,record_count_based,cleanup_old_records,time_based_stats}"],
     bounds=CB_BOUND, outside="window sizes > 3, more than 2 records in a time-based pre-state",
@@ -332,16 +336,16 @@ _h12 = lambda n, what, bound, timeout=3000, **kw: H("verif_kani::c12::" + n, HED
 PROPS["C12"] = Prop(
     harnesses=[
         _h12("latency_mode_two_attempts", "latency mode (fixed positive delay), max_hedged_attempts = 2",
-             "delay any whole ms in (0, 30 s]; per-attempt latency any whole ms <= 60 s, ok/err outcome; 4 scheduling rounds: advance the clock by any amount, run the attempt tasks, poll the call"),
+             "delay 5 s (HedgeDelay::get_delay stubbed by a constant); per-attempt latency any whole ms <= 60 s, ok/err outcome; 4 scheduling rounds: advance the clock by any amount, run the attempt tasks, poll the call"),
         _h12("parallel_mode_two_attempts", "parallel mode (Immediate), 2 attempts", "3 rounds, otherwise as above"),
         _h12("single_attempt", "max_hedged_attempts = 1", "3 rounds", tiers=("thorough",)),
-        _h12("zero_delay_two_attempts", "Fixed(0) delay = parallel", "3 rounds", tiers=("thorough",)),
         _h12("latency_mode_three_attempts", "latency mode, 3 attempts", "5 rounds", tiers=("thorough",), timeout=5400),
     ],
     functions=["tower_resilience_hedge::{Hedge::{new,poll_ready,call},execute_with_hedging}", "HedgeDelay::get_delay"],
     bounds="max_hedged_attempts 1..=3 (quick: 2), 3-5 scheduling rounds, latencies <= 60 s, delay <= 30 s",
     outside="more scheduling rounds / attempts; per-attempt Dynamic delays; that tokio's timer wakes the call at the delay (the harness polls at arbitrary instants)",
-    assumptions=["tokio spawn / mpsc / sleep replaced by the model; the harness is the scheduler; `select!` is tokio's macro text (biased)", "Instant::now -> virtual clock"],
+    assumptions=["tokio spawn / mpsc / sleep replaced by the model; the harness is the scheduler; `select!` is tokio's macro text (biased)", "Instant::now -> virtual clock",
+                 "HedgeDelay::get_delay stubbed by a constant (5 s latency mode / 0 parallel mode) so that CBMC explores one mode per harness"],
 )
 
 # ---------------------------------------------------------------------------
